@@ -1,0 +1,356 @@
+// Copyright 2025 The Go Authors. All rights reserved.
+// Use of this source code is governed by a BSD-style
+// license that can be found in the LICENSE file.
+
+//go:build verif
+
+package httpsfv
+
+// Contracts, spec functions and lemma harnesses for the deductive verifier in /verif (govc).
+// This file is compiled only with -tags verif; it adds no behaviour to the package.
+
+// ---------------------------------------------------------------------------
+// Structured fields (property C56). The character classes are written from the ABNF of
+// RFC 9651 / RFC 5234 / RFC 9110, not from the predicates of httpsfv.go.
+
+// lcalpha = %x61-7A (RFC 9651 section 3.1.2)
+//
+//@ pure
+func rfcLCAlpha(c byte) bool { return 0x61 <= c && c <= 0x7a }
+
+// ALPHA = %x41-5A / %x61-7A (RFC 5234 B.1)
+//
+//@ pure
+func rfcAlpha(c byte) bool { return (0x41 <= c && c <= 0x5a) || (0x61 <= c && c <= 0x7a) }
+
+// DIGIT = %x30-39 (RFC 5234 B.1)
+//
+//@ pure
+func rfcDigit(c byte) bool { return 0x30 <= c && c <= 0x39 }
+
+// VCHAR = %x21-7E (RFC 5234 B.1)
+//
+//@ pure
+func rfcVChar(c byte) bool { return 0x21 <= c && c <= 0x7e }
+
+// tchar (RFC 9110 section 5.6.2):
+// "!" / "#" / "$" / "%" / "&" / "'" / "*" / "+" / "-" / "." / "^" / "_" / "`" / "|" / "~" / DIGIT / ALPHA
+//
+//@ pure
+func rfcTChar(c byte) bool {
+	return c == '!' || c == '#' || c == '$' || c == '%' || c == '&' || c == '\'' || c == '*' || c == '+' ||
+		c == '-' || c == '.' || c == '^' || c == '_' || c == '`' || c == '|' || c == '~' ||
+		rfcDigit(c) || rfcAlpha(c)
+}
+
+//@ func isLCAlpha(b) (r)
+//@   ensures r <==> rfcLCAlpha(b)
+//@
+//@ func isAlpha(b) (r)
+//@   ensures r <==> rfcAlpha(b)
+//@
+//@ func isDigit(b) (r)
+//@   ensures r <==> rfcDigit(b)
+//@
+//@ func isVChar(b) (r)
+//@   ensures r <==> rfcVChar(b)
+//@
+//@ func isSP(b) (r)
+//@   ensures r <==> b == 0x20
+//@
+//@ func isTChar(b) (r)
+//@   ensures r <==> rfcTChar(b)
+
+// ---------------------------------------------------------------------------
+// Leaf consumers. Every consumeX(s) returns views of s: on success consumed = s[:n] and
+// rest = s[n:] (stated structurally with samebase/suboff, which implies consumed+rest == s);
+// on failure consumed is empty and rest is s itself.
+
+// verifNothing is never written. `loop k modifies verifNothing` declares a loop frame without any
+// heap location: the loop writes no storage that existed before it (the `[]byte("...")` conversions
+// inside the loops allocate fresh arrays). Without a declared loop frame the engine havocs all byte
+// storage at the loop head, including the `[]byte(s)` copy the loop ranges over.
+var verifNothing bool
+
+// OWS as used by the RFC 9651 parsing algorithms ("discard any leading OWS"): SP / HTAB.
+//
+//@ pure
+func rfcOWS(c byte) bool { return c == ' ' || c == '\t' }
+
+// key = ( lcalpha / "*" ) *( lcalpha / DIGIT / "_" / "-" / "." / "*" )   (RFC 9651 section 3.1.2)
+//
+//@ pure
+func rfcKeyStart(c byte) bool { return rfcLCAlpha(c) || c == '*' }
+
+//@ pure
+func rfcKeyChar(c byte) bool {
+	return rfcLCAlpha(c) || rfcDigit(c) || c == '_' || c == '-' || c == '.' || c == '*'
+}
+
+// sf-token = ( ALPHA / "*" ) *( tchar / ":" / "/" )   (RFC 9651 section 3.3.4)
+//
+//@ pure
+func rfcTokenStart(c byte) bool { return rfcAlpha(c) || c == '*' }
+
+//@ pure
+func rfcTokenChar(c byte) bool { return rfcTChar(c) || c == ':' || c == '/' }
+
+// base64 = ALPHA / DIGIT / "+" / "/" / "="   (RFC 9651 section 3.3.5)
+//
+//@ pure
+func rfcBase64Char(c byte) bool { return rfcAlpha(c) || rfcDigit(c) || c == '+' || c == '/' || c == '=' }
+
+// lc-hexdig = DIGIT / %x61-66   (RFC 9651 section 3.3.8)
+//
+//@ pure
+func rfcLCHex(c byte) bool { return rfcDigit(c) || (0x61 <= c && c <= 0x66) }
+
+//@ pure
+func rfcHexVal(c byte) byte {
+	if rfcDigit(c) {
+		return c - 0x30
+	}
+	return c - 0x61 + 10
+}
+
+//@ func countLeftWhitespace(s) (n)
+//@   ensures 0 <= n && n <= len(s)
+//@   ensures forall k int :: 0 <= k && k < n ==> rfcOWS(s[k])
+//@   ensures n < len(s) ==> !rfcOWS(s[n])
+//@   loop 1 invariant i == rangeindex + 1 && 0 <= i && i <= len(s)
+//@   loop 1 invariant forall j int :: 0 <= j && j < i ==> rfcOWS(s[j])
+//@
+//@ func decOctetHex(ch1, ch2) (ch, ok)
+//@   ensures ok <==> rfcLCHex(ch1) && rfcLCHex(ch2)
+//@   ensures ok ==> ch == ((rfcHexVal(ch1) << 4) | rfcHexVal(ch2))
+//@   ensures !ok ==> ch == 0
+//@
+//@ func consumeKey(s) (consumed, rest, ok)
+//@   ensures ok <==> len(s) > 0 && rfcKeyStart(s[0])
+//@   ensures ok ==> samebase(consumed, s) && suboff(consumed, s) == 0
+//@   ensures samebase(rest, s) && suboff(rest, s) == len(consumed) && len(consumed) + len(rest) == len(s)
+//@   ensures !ok ==> len(consumed) == 0
+//@   ensures ok ==> len(consumed) >= 1
+//@   ensures forall k int :: 0 <= k && k < len(consumed) ==> rfcKeyChar(s[k])
+//@   ensures ok && len(consumed) < len(s) ==> !rfcKeyChar(s[len(consumed)])
+//@   loop 1 invariant i == rangeindex + 1 && 0 <= i && i <= len(s)
+//@   loop 1 invariant forall j int :: 0 <= j && j < i ==> rfcKeyChar(s[j])
+//@   loop 1 modifies verifNothing
+//@
+//@ func consumeToken(s) (consumed, rest, ok)
+//@   ensures ok <==> len(s) > 0 && rfcTokenStart(s[0])
+//@   ensures ok ==> samebase(consumed, s) && suboff(consumed, s) == 0
+//@   ensures samebase(rest, s) && suboff(rest, s) == len(consumed) && len(consumed) + len(rest) == len(s)
+//@   ensures !ok ==> len(consumed) == 0
+//@   ensures ok ==> len(consumed) >= 1
+//@   ensures forall k int :: 0 <= k && k < len(consumed) ==> rfcTokenChar(s[k])
+//@   ensures ok && len(consumed) < len(s) ==> !rfcTokenChar(s[len(consumed)])
+//@   loop 1 invariant i == rangeindex + 1 && 0 <= i && i <= len(s)
+//@   loop 1 invariant forall j int :: 0 <= j && j < i ==> rfcTokenChar(s[j])
+//@   loop 1 modifies verifNothing
+//@
+//@ func consumeBoolean(s) (consumed, rest, ok)
+//@   ensures ok <==> len(s) >= 2 && s[0] == '?' && (s[1] == '0' || s[1] == '1')
+//@   ensures ok ==> samebase(consumed, s) && suboff(consumed, s) == 0
+//@   ensures samebase(rest, s) && suboff(rest, s) == len(consumed) && len(consumed) + len(rest) == len(s)
+//@   ensures len(consumed) == ite(ok, 2, 0)
+//@
+//@ func consumeByteSequence(s) (consumed, rest, ok)
+//@   ensures ok ==> samebase(consumed, s) && suboff(consumed, s) == 0
+//@   ensures samebase(rest, s) && suboff(rest, s) == len(consumed) && len(consumed) + len(rest) == len(s)
+//@   ensures !ok ==> len(consumed) == 0
+//@   ensures ok ==> len(consumed) >= 2 && s[0] == ':' && s[len(consumed)-1] == ':'
+//@   ensures ok ==> forall k int :: 1 <= k && k < len(consumed)-1 ==> rfcBase64Char(s[k])
+//@   ensures forall q int :: (1 <= q && q < len(s) && s[0] == ':' && s[q] == ':' && (forall k int :: 1 <= k && k < q ==> rfcBase64Char(s[k]))) ==> ok && len(consumed) == q+1
+//@   loop 1 invariant 1 <= i && i <= len(s) && s[0] == ':'
+//@   loop 1 invariant forall j int :: 1 <= j && j < i ==> rfcBase64Char(s[j])
+//@   loop 1 modifies verifNothing
+
+// sf-string = DQUOTE *( unescaped / "\" ( DQUOTE / "\" ) ) DQUOTE
+// unescaped = %x20-21 / %x23-5B / %x5D-7E   (RFC 9651 section 3.3.3)
+//
+//@ pure
+func rfcStringUnescaped(c byte) bool {
+	return (0x20 <= c && c <= 0x21) || (0x23 <= c && c <= 0x5b) || (0x5d <= c && c <= 0x7e)
+}
+
+//@ func consumeString(s) (consumed, rest, ok)
+//@   ensures ok ==> samebase(consumed, s) && suboff(consumed, s) == 0
+//@   ensures samebase(rest, s) && suboff(rest, s) == len(consumed) && len(consumed) + len(rest) == len(s)
+//@   ensures !ok ==> len(consumed) == 0
+//@   ensures ok ==> len(consumed) >= 2 && s[0] == '"' && s[len(consumed)-1] == '"'
+//@   ensures ok ==> forall k int :: 1 <= k && k < len(consumed)-1 ==> 0x20 <= s[k] && s[k] <= 0x7e
+//@   ensures ok ==> forall k int :: 1 <= k && k < len(consumed)-1 && s[k] == '"' ==> s[k-1] == '\\'
+//@   ensures ok ==> forall k int :: 1 <= k && k < len(consumed)-1 && s[k] == '\\' ==> s[k-1] == '\\' || s[k+1] == '\\' || (s[k+1] == '"' && k+1 < len(consumed)-1)
+//@   ensures forall q int :: (1 <= q && q < len(s) && s[0] == '"' && s[q] == '"' && (forall k int :: 1 <= k && k < q ==> rfcStringUnescaped(s[k]))) ==> ok && len(consumed) == q+1
+//@   loop 1 invariant 1 <= i && i <= len(s) && s[0] == '"'
+//@   loop 1 invariant forall j int :: 1 <= j && j < i ==> 0x20 <= s[j] && s[j] <= 0x7e
+//@   loop 1 invariant forall j int :: 1 <= j && j < i && s[j] == '"' ==> s[j-1] == '\\'
+//@   loop 1 invariant forall j int :: 1 <= j && j < i && s[j] == '\\' ==> s[j-1] == '\\' || (j+1 < i && (s[j+1] == '\\' || s[j+1] == '"'))
+
+// Integers and decimals (RFC 9651 sections 3.3.1, 3.3.2 and the algorithm of 4.2.4):
+//   sf-integer = ["-"] 1*15DIGIT
+//   sf-decimal = ["-"] 1*12DIGIT "." 1*3DIGIT
+// The algorithm reads the longest run DIGIT* [ "." DIGIT* ] after the sign and then applies the limits
+// (so "1234567890123.5" and "1." fail instead of yielding a shorter number).
+//
+// numSign(s): number of sign characters (0 or 1).
+//
+//@ pure
+func numSign(s string) int {
+	if len(s) > 0 && s[0] == '-' {
+		return 1
+	}
+	return 0
+}
+
+// numDotPos(s, n): position of a "." among the three positions before the last character of s[:n],
+// or -1. In an accepted number a "." is followed by one to three digits, so for the consumed prefix
+// s[:n] this is the position of its "." (decimal) or -1 (integer), without a quantifier.
+//
+//@ pure
+func numDotPos(s string, n int) int {
+	if n >= 2 && s[n-2] == '.' {
+		return n - 2
+	}
+	if n >= 3 && s[n-3] == '.' {
+		return n - 3
+	}
+	if n >= 4 && s[n-4] == '.' {
+		return n - 4
+	}
+	return -1
+}
+
+// numLimits(sg, d, n): the RFC limits for a number text of n characters with sg sign characters and
+// its "." at d (-1: integer): at most 15 digits, or 1..12 digits before the "." (1..3 after it follow
+// from d being one of n-2, n-3, n-4).
+//
+//@ pure
+func numLimits(sg, d, n int) bool {
+	if d < 0 {
+		return n-sg <= 15
+	}
+	return d > sg && d-sg <= 12
+}
+
+// Contract of consumeIntegerOrDecimal, with sg = numSign(s), n = len(consumed), d = numDotPos(s, n):
+// (3) ok ==> s[sg:n] is DIGIT+ (d < 0) or DIGIT+ "." DIGIT{1,3} (d >= 0), within the limits, and n is
+//     maximal: s[n] is not a digit, and a "." at s[n] occurs only after a decimal;
+// (4) conversely every q with these properties is accepted with n == q. Together: ok holds exactly
+//     for the strings the algorithm of RFC 9651 section 4.2.4 accepts, and consumed is that number.
+//
+//@ func consumeIntegerOrDecimal(s) (consumed, rest, ok)
+//@   ensures ok ==> samebase(consumed, s) && suboff(consumed, s) == 0
+//@   ensures samebase(rest, s) && suboff(rest, s) == len(consumed) && len(consumed) + len(rest) == len(s)
+//@   ensures !ok ==> len(consumed) == 0
+//@   ensures ok ==> len(consumed) > numSign(s) && numLimits(numSign(s), numDotPos(s, len(consumed)), len(consumed))
+//@   ensures ok ==> forall k int :: numSign(s) <= k && k < len(consumed) && k != numDotPos(s, len(consumed)) ==> rfcDigit(s[k])
+//@   ensures ok && len(consumed) < len(s) ==> !rfcDigit(s[len(consumed)]) && (s[len(consumed)] == '.' ==> numDotPos(s, len(consumed)) >= 0)
+//@   ensures forall q int :: (numSign(s) < q && q <= len(s) && numLimits(numSign(s), numDotPos(s, q), q) && (forall k int :: numSign(s) <= k && k < q && k != numDotPos(s, q) ==> rfcDigit(s[k])) && (q == len(s) || (!rfcDigit(s[q]) && (s[q] == '.' ==> numDotPos(s, q) >= 0)))) ==> ok && len(consumed) == q
+//@   loop 1 invariant signOffset == numSign(s) && signOffset <= i && i <= len(s) && signOffset < len(s) && rfcDigit(s[signOffset])
+//@   loop 1 invariant !isDecimal ==> forall j int :: signOffset <= j && j < i ==> rfcDigit(s[j])
+//@   loop 1 invariant isDecimal ==> signOffset < periodIndex && periodIndex < i && s[periodIndex] == '.' && periodIndex - signOffset <= 12
+//@   loop 1 invariant isDecimal ==> forall j int :: signOffset <= j && j < i && j != periodIndex ==> rfcDigit(s[j])
+//@
+// sf-date = "@" sf-integer (RFC 9651 section 3.3.7; algorithm 4.2.9: a decimal after "@" fails).
+// The part after "@" is written s[1:] below.
+//@
+//@ func consumeDate(s) (consumed, rest, ok)
+//@   ensures ok ==> samebase(consumed, s) && suboff(consumed, s) == 0
+//@   ensures samebase(rest, s) && suboff(rest, s) == len(consumed) && len(consumed) + len(rest) == len(s)
+//@   ensures !ok ==> len(consumed) == 0
+//@   ensures ok ==> numDotPos(s, len(consumed)) < 0 && s[0] == '@' && len(consumed)-1 > numSign(s[1:]) && len(consumed)-1 - numSign(s[1:]) <= 15
+//@   ensures ok ==> numDotPos(s, len(consumed)) < 0 && forall k int :: numSign(s[1:]) <= k && k < len(consumed)-1 ==> rfcDigit(s[1:][k])
+//@   ensures ok && len(consumed) < len(s) ==> numDotPos(s, len(consumed)) < 0 && !rfcDigit(s[len(consumed)]) && s[len(consumed)] != '.'
+// (The converse, every "@" sf-integer is accepted, is not proved for consumeDate: undecided within the time limit.)
+//@
+// sf-displaystring = "%" DQUOTE *( unescaped / pct-encoded ) DQUOTE, pct-encoded = "%" lc-hexdig lc-hexdig
+// (RFC 9651 section 3.3.8). Proved here: the framing, the delimiters, that every consumed character is
+// printable ASCII and that no unescaped DQUOTE lies inside; the UTF-8 validity of the decoded octets
+// (utf8.FullRune / utf8.DecodeRune) is not specified.
+//@
+//@ func consumeDisplayString(s) (consumed, rest, ok)
+//@   ensures ok ==> samebase(consumed, s) && suboff(consumed, s) == 0
+//@   ensures samebase(rest, s) && suboff(rest, s) == len(consumed) && len(consumed) + len(rest) == len(s)
+//@   ensures !ok ==> len(consumed) == 0
+//@   ensures ok ==> len(consumed) >= 3 && s[0] == '%' && s[1] == '"' && s[len(consumed)-1] == '"'
+//@   ensures ok ==> forall k int :: 2 <= k && k < len(consumed)-1 ==> 0x20 <= s[k] && s[k] <= 0x7e && s[k] != '"'
+//@   ensures ok ==> forall k int :: 2 <= k && k < len(consumed)-1 && s[k] == '%' ==> rfcLCHex(s[k+1]) && rfcLCHex(s[k+2]) && k+2 < len(consumed)-1
+//@   loop 1 invariant 2 <= i && i <= len(s) && s[0] == '%' && s[1] == '"' && 0 <= runeLen && runeLen <= 3
+//@   loop 1 invariant forall j int :: 2 <= j && j < i ==> 0x20 <= s[j] && s[j] <= 0x7e && s[j] != '"'
+//@   loop 1 invariant forall j int :: 2 <= j && j < i && s[j] == '%' ==> rfcLCHex(s[j+1]) && rfcLCHex(s[j+2]) && j+2 < i
+//@   allocates
+//@
+//@ func consumeBareItem(s) (consumed, rest, ok)
+//@   ensures ok ==> samebase(consumed, s) && suboff(consumed, s) == 0
+//@   ensures samebase(rest, s) && suboff(rest, s) == len(consumed) && len(consumed) + len(rest) == len(s)
+//@   ensures !ok ==> len(consumed) == 0
+//@   ensures ok ==> len(consumed) >= 1
+//@   ensures ok ==> s[0] == '-' || rfcDigit(s[0]) || s[0] == '"' || s[0] == '*' || rfcAlpha(s[0]) || s[0] == ':' || s[0] == '?' || s[0] == '@' || s[0] == '%'
+
+// ---------------------------------------------------------------------------
+// Parse* wrappers: the whole string must be one item of the kind.
+
+//@ func ParseInteger(s) (parsed, ok)
+//@   ensures ok ==> len(s) > numSign(s) && len(s) - numSign(s) <= 15 && numDotPos(s, len(s)) < 0
+//@   ensures ok ==> forall k int :: numSign(s) <= k && k < len(s) ==> rfcDigit(s[k])
+//@   ensures len(s) > numSign(s) && len(s) - numSign(s) <= 15 && numDotPos(s, len(s)) < 0 && (forall k int :: numSign(s) <= k && k < len(s) ==> rfcDigit(s[k])) ==> ok
+//@   ensures !ok ==> parsed == 0
+//@   allocates
+//@
+//@ func ParseBoolean(s) (parsed, ok)
+//@   ensures ok <==> len(s) == 2 && s[0] == '?' && (s[1] == '0' || s[1] == '1')
+//@   ensures parsed <==> ok && s[1] == '1'
+//@
+//@ func ParseToken(s) (parsed, ok)
+//@   ensures ok ==> len(s) > 0 && rfcTokenStart(s[0]) && forall k int :: 0 <= k && k < len(s) ==> rfcTokenChar(s[k])
+//@   ensures len(s) > 0 && rfcTokenStart(s[0]) && (forall k int :: 0 <= k && k < len(s) ==> rfcTokenChar(s[k])) ==> ok
+//@   ensures ok ==> samebase(parsed, s) && suboff(parsed, s) == 0 && len(parsed) == len(s)
+//@   ensures !ok ==> len(parsed) == 0
+//@   allocates
+//@
+//@ func ParseString(s) (parsed, ok)
+//@   ensures ok ==> len(s) >= 2 && s[0] == '"' && s[len(s)-1] == '"'
+//@   ensures ok ==> samebase(parsed, s) && suboff(parsed, s) == 1 && len(parsed) == len(s) - 2
+//@   ensures ok ==> forall k int :: 1 <= k && k < len(s)-1 ==> 0x20 <= s[k] && s[k] <= 0x7e
+//@   ensures ok ==> forall k int :: 1 <= k && k < len(s)-1 && s[k] == '"' ==> s[k-1] == '\\'
+//@   ensures len(s) >= 2 && s[0] == '"' && s[len(s)-1] == '"' && (forall k int :: 1 <= k && k < len(s)-1 ==> rfcStringUnescaped(s[k])) ==> ok
+//@   ensures !ok ==> len(parsed) == 0
+//@
+//@ func ParseByteSequence(s) (parsed, ok)
+//@   ensures ok ==> len(s) >= 2 && s[0] == ':' && s[len(s)-1] == ':' && forall k int :: 1 <= k && k < len(s)-1 ==> rfcBase64Char(s[k])
+//@   ensures len(s) >= 2 && s[0] == ':' && s[len(s)-1] == ':' && (forall k int :: 1 <= k && k < len(s)-1 ==> rfcBase64Char(s[k])) ==> ok
+//@   ensures ok ==> len(parsed) == len(s) - 2 && forall k int :: 0 <= k && k < len(parsed) ==> parsed[k] == s[k+1]
+//@   ensures !ok ==> len(parsed) == 0
+//@   allocates
+//@
+//@ func ParseDate(s) (parsed, ok)
+//@   ensures ok ==> len(s) >= 2 && s[0] == '@' && len(s)-1 > numSign(s[1:]) && len(s)-1 - numSign(s[1:]) <= 15
+//@   ensures ok ==> forall k int :: numSign(s[1:]) <= k && k < len(s)-1 ==> rfcDigit(s[1:][k])
+//@   allocates
+//@
+//@ func ParseDecimal(s) (parsed, ok)
+//@   ensures ok ==> len(s) > numSign(s) && numLimits(numSign(s), numDotPos(s, len(s)), len(s))
+//@   ensures ok ==> forall k int :: numSign(s) <= k && k < len(s) && k != numDotPos(s, len(s)) ==> rfcDigit(s[k])
+//@   allocates
+//@
+//@ func ParseDisplayString(s) (parsed, ok)
+//@   ensures ok ==> len(s) >= 3 && s[0] == '%' && s[1] == '"' && s[len(s)-1] == '"'
+//@   ensures ok ==> forall k int :: 2 <= k && k < len(s)-1 ==> 0x20 <= s[k] && s[k] <= 0x7e && s[k] != '"'
+//@   ensures ok ==> forall k int :: 2 <= k && k < len(s)-1 && s[k] == '%' ==> rfcLCHex(s[k+1]) && rfcLCHex(s[k+2]) && k+2 < len(s)-1
+//@   loop 1 invariant 0 <= i && i <= len(s) && samebase(s, old(s)) && suboff(s, old(s)) == 2 && len(s) == len(old(s)) - 3
+//@   loop 1 invariant forall j int :: 0 <= j && j < len(s) && s[j] == '%' && old(s)[j+2] == '%' ==> j+2 < len(s)
+//@   noframe
+//@   allocates
+
+// lemmaIntegerAccepted: a whole string ["-"] 1*15DIGIT is consumed completely.
+//
+//@ lemma
+//@ requires len(s) > numSign(s) && len(s) - numSign(s) <= 15 && numDotPos(s, len(s)) < 0
+//@ requires forall k int :: numSign(s) <= k && k < len(s) ==> rfcDigit(s[k])
+//@ ensures r
+func lemmaIntegerAccepted(s string) (r bool) {
+	_, rest, ok := consumeIntegerOrDecimal(s)
+	return ok && rest == ""
+}
